@@ -258,14 +258,12 @@ def gen_sm(rng, tier, mult):
     return cases
 
 
-POOL_SIZES = [1, 2, 3, 4]          # MPOOL instantiations of harness/h_ds.c (`mp_init <size>`; DsStep.poolSizes)
+POOL_SIZES = [1, 2, 3, 4]          # MPOOL instantiations of harness/h_ds.c (`mp_init/mp_use <size>`; DsStep.poolSizes)
 
 
-def mp_cross(k, rounds=2, order="lifo", sched=None, sched_at=0):
-    """Drive the pool of cache size k across its cache size: allocate k+2 objects, free them all (the (k+1)-th free
-    doubles the stack, or - request refused - releases the object), allocate again (served from the cache, which must not
-    hold anything that was released), ..., exit.  `sched` is put before phase number `sched_at`."""
-    ops = ["mp_init %d" % k]
+def mp_cross_phases(k, rounds=2, order="lifo"):
+    """k+2 allocations, all freed (LIFO / FIFO by id; `mp_freenth` counts among the objects of the pool in use), ..., every
+    round one object larger, finally k+2 allocations."""
     phases = []
     n = k + 2
     for _ in range(rounds):
@@ -276,12 +274,149 @@ def mp_cross(k, rounds=2, order="lifo", sched=None, sched_at=0):
             phases.append(["mp_freenth 0"] * n)
         n += 1
     phases.append(["mp_malloc"] * (k + 2))
+    return phases
+
+
+def mp_cross(k, rounds=2, order="lifo", sched=None, sched_at=0):
+    """Drive the pool of cache size k across its cache size: allocate k+2 objects, free them all (the (k+1)-th free
+    doubles the stack, or - request refused - releases the object), allocate again (served from the cache, which must not
+    hold anything that was released), ..., exit.  `sched` is put before phase number `sched_at`."""
+    ops = ["mp_init %d" % k]
+    phases = mp_cross_phases(k, rounds, order)
     for i, ph in enumerate(phases):
         if sched is not None and i == sched_at:
             ops.append(sched)
         ops += ph
     ops += ["mp_exit", "end"]
     return ops
+
+
+def mp_pair(a, b, order="lifo", sched=None, sched_at=0, lead=True):
+    """Two pools alive in one process: pool a across its cache size (a+2 allocations, all freed), then the same with pool b
+    while a's cache stays filled, a again (served from its cache), b again (all but one of what its cache holds; with a
+    failure schedule - the cache may hold a single object - one object, given back), one exit for both, each with objects
+    in its cache.  `sched` is put before segment number `sched_at` (segment = one pool's allocations or frees); `lead` =
+    name pool 4 although a case starts with it."""
+    def frees(n):
+        return ["mp_freenth %d" % (n - 1 - i) for i in range(n)] if order == "lifo" else ["mp_freenth 0"] * n
+    segs = [(a, ["mp_malloc"] * (a + 2)), (a, frees(a + 2)), (b, ["mp_malloc"] * (b + 2)), (b, frees(b + 2)),
+            (a, ["mp_malloc"] * (a + 3)), (a, frees(a + 3)), (b, ["mp_malloc"] * (b + 1) if sched is None else ["mp_malloc", "mp_freenth 0"])]
+    ops = []
+    cur = 4 if not lead else None
+    for i, (k, seg) in enumerate(segs):
+        if k != cur:
+            ops.append("mp_use %d" % k)
+            cur = k
+        if sched is not None and i == sched_at:
+            ops.append(sched)
+        ops += seg
+    return ops + ["mp_exit", "end"]
+
+
+def mp_weave(scripts, step=1):
+    """Round robin over the pools' scripts (dict size -> op list), `step` ops at a time, `mp_use` at every switch."""
+    ops = []
+    cur = 4
+    pos = dict((k, 0) for k in scripts)
+    while any(pos[k] < len(scripts[k]) for k in scripts):
+        for k in sorted(scripts):
+            if pos[k] < len(scripts[k]):
+                if k != cur:
+                    ops.append("mp_use %d" % k)
+                    cur = k
+                ops += scripts[k][pos[k]:pos[k] + step]
+                pos[k] += step
+    return ops + ["mp_exit", "end"]
+
+
+def mp_script(r, k):
+    """Ops for the pool of cache size k alone (no mp_use / exit): the number of objects in use crosses k and frees happen
+    while the stack is full (doubling).  Returns (ops, objects in use afterwards if nothing was refused)."""
+    mode = r.choice(["cross", "cross", "burst", "mix"])
+    ops = []
+    inuse = 0
+    if mode == "cross":
+        for ph in mp_cross_phases(k, rounds=r.range(1, 2), order=r.choice(["lifo", "fifo"])):
+            ops += ph
+        inuse = k + 2
+    elif mode == "burst":
+        for _ in range(r.range(1, 3)):
+            target = r.choice([k + 1, k + 2, 2 * k + 1, 2 * k + 2, 5, 6, 9, 10, 17])
+            ops += ["mp_malloc"] * target
+            inuse += target
+            nfree = inuse if r.chance(2, 3) else r.range(min(k + 1, inuse), inuse)
+            ops += ["mp_freenth %d" % r.below(1000) for _ in range(nfree)]
+            inuse -= nfree
+    else:
+        ops += ["mp_malloc"] * (k + 1)
+        inuse = k + 1
+        for _ in range(r.range(2 * k + 4, 40)):
+            if inuse == 0 or r.chance(9, 20):
+                ops.append("mp_malloc")
+                inuse += 1
+            else:
+                ops.append("mp_freenth %d" % r.below(1000))
+                inuse -= 1
+    return ops, inuse
+
+
+def mp_several(r):
+    """2..4 pools alive and interleaved in one process (`mp_use`), one exit for all of them.  Every pool taken makes at
+    least one allocation, crosses its cache size and frees past a full stack."""
+    sizes = list(POOL_SIZES)
+    for i in range(len(sizes) - 1, 0, -1):
+        j = r.below(i + 1)
+        sizes[i], sizes[j] = sizes[j], sizes[i]
+    sizes = sizes[:r.range(2, 4)]
+    scripts = {}
+    inuse = {}
+    for k in sizes:
+        scripts[k], inuse[k] = mp_script(r, k)
+    ops = []
+    cur = 4
+    if r.chance(1, 4):
+        ops.append("mp_use %d" % sizes[0])
+        cur = sizes[0]
+    sched = r.choice(["none", "none", "doubling", "random"])
+    failing = 0
+    left = [k for k in sizes if scripts[k]]
+    while left:
+        k = r.choice(left)
+        if k != cur or r.chance(1, 10):
+            ops.append("mp_use %d" % k)
+            cur = k
+        chunk = r.range(1, r.choice([2, k + 2, k + 3, 12]))
+        seg, scripts[k] = scripts[k][:chunk], scripts[k][chunk:]
+        if failing and r.chance(1, 3):
+            ops.append("failoff")
+            failing = 0
+        if sched == "random" and r.chance(1, 8):
+            ops.append(sched_op(r))
+            failing = 1
+        elif sched == "doubling" and seg[0].startswith("mp_freenth") and r.chance(1, 3):
+            # the next request is the stack doubling of this pool (if its stack is full by now)
+            ops.append(r.choice(["failat 1", "failat 1", "failat 2", "failfrom 1"]))
+            failing = 1
+        ops += seg
+        if not scripts[k]:
+            left.remove(k)
+    if r.chance(1, 3):
+        ops.append("failfrom 1")     # frees and exit must work when every request is refused
+        failing = 1
+    for k in sizes:
+        if r.chance(2, 3):
+            if k != cur:
+                ops.append("mp_use %d" % k)
+                cur = k
+            for _ in range(r.range(0, inuse[k] + 1)):
+                ops.append("mp_freenth %d" % r.below(1000))
+            if r.chance(1, 4):
+                # what this pool's cache holds now is handed out again
+                if failing:
+                    ops.append("failoff")
+                    failing = 0
+                ops += ["mp_malloc"] * r.range(1, 2 * k + 2)
+    return ops + ["mp_exit", "end"]
 
 
 def gen_mp(rng, tier, mult):
@@ -296,6 +431,10 @@ def gen_mp(rng, tier, mult):
                 cases.append(mp_cross(k, order=order, sched=sched, sched_at=at))
     for ci in range(n):
         r = rng.fork("mp%d" % ci)
+        if ci % 3 == 2:
+            # several pools alive in one process
+            cases.append(mp_several(r))
+            continue
         ops = []
         size = r.choice([1, 1, 2, 2, 3, 4, 4, 4])
         if size != 4 or r.chance(1, 2):
@@ -347,6 +486,23 @@ def gen_mp(rng, tier, mult):
         ops.append("mp_exit")
         ops.append("end")
         cases.append(ops)
+    # two pools alive in one process, every ordered pair of sizes: a across its cache size, b likewise while a's cache is
+    # filled, a again, b again, one exit; without faults and with a doubling refused / everything refused from there on
+    for a in POOL_SIZES:
+        for b in POOL_SIZES:
+            if a != b:
+                cases.append(mp_pair(a, b, order="lifo"))
+                cases.append(mp_pair(a, b, order="fifo", lead=False))
+                cases.append(mp_pair(a, b, order="fifo", sched="failat 1", sched_at=3))
+                cases.append(mp_pair(a, b, order="lifo", sched="failfrom 1", sched_at=3, lead=False))
+                cases.append(mp_pair(a, b, order="lifo", sched="failat 1", sched_at=1))
+    # all four pools, one / three ops at a time in turn
+    for order in ("lifo", "fifo"):
+        for step in (1, 3):
+            scripts = {}
+            for k in POOL_SIZES:
+                scripts[k] = [o for ph in mp_cross_phases(k, order=order) for o in ph]
+            cases.append(mp_weave(scripts, step))
     return cases
 
 
@@ -358,9 +514,19 @@ def classify(case, out):
     nops = len(case)
     tags.append("ops<=10" if nops <= 10 else "ops<=60" if nops <= 62 else "ops>60")
     prev_al = prev_off = prev_asz = None
+    mp_cur, mp_alive = 4, set()           # pool in use; pools that made an allocation since the last exit
     for op, line in zip(case, out):
         name = op.split(" ", 1)[0]
         st = line.split(" ", 1)[0]
+        if name in ("mp_use", "mp_init") and st == "ok":
+            mp_cur = int(op.split()[1])
+            prev_asz = None               # another pool's stack from here on
+        if (name in ("mp_init", "mp_exit") and st == "ok") or name == "end":
+            if len(mp_alive) >= 2:
+                tags.append("mp:several-pools-alive")
+            mp_alive = set()
+        if name == "mp_malloc" and " obj=" in line:
+            mp_alive.add(mp_cur)
         if st == "fail":
             tags.append(name + ":fail")
         elif st == "skip":
@@ -432,6 +598,9 @@ def components(ctx):
                             "refused once / from then on; bursts past the cache size followed by frees (stack doubling "
                             "1->2->4.., 4->8->16->32->64), cache-served churn, random mixes, failure schedules incl. "
                             "refuse-everything before the final frees and exit, re-allocation of everything the cache holds; "
+                            "a third of the random cases and directed cases for every ordered pair of sizes keep 2-4 pools alive "
+                            "in one process (mp_use <size> switches the pool in use; chunks of per-pool sequences across the "
+                            "cache size interleaved, all four pools in turn), one exit for all of them; "
                             "non-trivial = >= 5 malloc/free", bb_fresh=True, **common),
     ]
 
